@@ -498,7 +498,11 @@ Inductive case :=
 | CMaxConns (n k : Z) (accepted : bool) (obs_full : bool)
   (* free-running stress: per host (max simultaneous forwards seen in the transport,
      min Conns read from inside the transport, final Conns, final Fails) *)
-| CStress (hosts : nat) (mc : Z) (nthreads : nat) (obs : list (Z * Z * Z * Z)) (all_answered : bool).
+| CStress (hosts : nat) (mc : Z) (nthreads : nat) (obs : list (Z * Z * Z * Z)) (all_answered : bool)
+  (* one request through the REAL http.Transport to a loopback backend that answers, drops the
+     connection, or is abandoned by the client: status, Conns while the backend holds the request,
+     Conns and Fails afterwards (max_fails 1, fail_timeout 1h, max_conns 5) *)
+| CLive (o : outcome) (code conns_during conns_after fails_after : Z).
 
 Definition mk_config (hosts : nat) (mc mf ft : Z) (unh : list bool) : config :=
   {| c_hosts := hosts; c_max_conns := mc; c_max_fails := mf; c_fail_timeout := ft;
@@ -539,5 +543,21 @@ Definition judge (c : case) : N :=
       let spec := all_answered &&
                   forallb (fun x : Z * Z * Z * Z => let '(mx, mn, fc, ff) := x in
                              ((mc <=? 0) || (mx <=? mc)) && (1 <=? mn) && (fc =? 0) && (ff =? 0)) obs in
+      verdict agree spec
+  | CLive o code cd ca fa =>
+      let cfg := mk_config 1 5 1 1000000000 [] in
+      let sel := sel_first cfg in
+      let s0 := init_threads 0 1 in
+      let agree :=
+        match run cfg sel s0 [LSelect 0; LBegin 0] with
+        | Some s1 =>
+            (conns s1 0%nat =? cd) &&
+            match hexec cfg sel s1 (HFinish 0 o false) with
+            | Some (s2, e) => ev_eqb e (EvDone code) && (conns s2 0%nat =? ca) && (fails s2 0%nat =? fa)
+            | None => false
+            end
+        | None => false
+        end in
+      let spec := (cd =? 1) && (ca =? 0) && (fa =? match o with OError => 1 | _ => 0 end) in
       verdict agree spec
   end.
